@@ -164,8 +164,9 @@ def tlc_monitor(module, cfg, trace_path, timeout=1800, constants=None):
     if constants:
         for k, v in constants.items():
             text = re.sub(r"(?m)^\s*%s\s*=.*$" % re.escape(k), "  %s = %s" % (k, v), text)
+    # bounded heap: several monitors run side by side (the JVM default would be 25 % of RAM each)
     out, dt = tlc(module, cfg, workers=1, timeout=timeout, ok_codes=(0,), cfg_text=text,
-                  java_opts="-Xss512m")
+                  java_opts="-Xss512m -Xmx%dg" % int(os.environ.get("VERIF_MONITOR_HEAP_GB", "10")))
     flags, done = [], None
     for line in out.splitlines():
         line = unquote(line)
@@ -428,7 +429,11 @@ def run_family(F, pid, tier, seed, replay=None):
         if done != len(tr):
             raise Inconclusive("S4: monitor consumed %s of %d lines of shard %d" % (done, len(tr), i))
         return fl, tr
-    with cf.ThreadPoolExecutor(max_workers=min(nsh, 8)) as ex:
+    # memory: big traces (thorough tiers) are judged by at most 4 monitor JVMs at a time
+    total_bytes = sum(os.path.getsize(os.path.join(scratch(), "trace%d.ndjson" % i)) for i in range(nsh)
+                      if os.path.exists(os.path.join(scratch(), "trace%d.ndjson" % i)))
+    par = 8 if total_bytes < 400 * 1024 * 1024 else 4
+    with cf.ThreadPoolExecutor(max_workers=min(nsh, par)) as ex:
         results = list(ex.map(mon, range(nsh)))
     flags_all, trace_all = [], []
     for fl, tr in results:
